@@ -3,6 +3,7 @@
 -/
 import PcVerif.Model.Geometry
 import PcVerif.Lemmas.GeoLemmas
+import PcVerif.Lemmas.GeoPrint
 namespace PcVerif.Props.C18
 open PcVerif PcVerif.Geo PcVerif.Str
 
@@ -96,22 +97,6 @@ theorem size_accepts_only_language (s : Str) (z : Size) (h : Size.fromString s =
       · simp at h
   · simp at h
 
-private theorem unit_head_not_decimal (u : Geo.Unit) (nl : Bool) (c : Char) (r : Str)
-    (h : u.text ++ (if nl then ['\n'] else []) = c :: r) : isDecimal c = false := by
-  cases u <;> simp [Unit.text] at h <;> (obtain ⟨rfl, _⟩ := h; decide)
-
-private theorem unit_head_ne_dot (u : Geo.Unit) (nl : Bool) (r : Str)
-    (h : u.text ++ (if nl then ['\n'] else []) = '.' :: r) : False := by
-  cases u <;> simp [Unit.text] at h
-
-private theorem matchUnitDollar_complete (u : Geo.Unit) (nl : Bool) :
-    (matchUnitDollar (u.text ++ (if nl then ['\n'] else []))).isSome = true := by
-  unfold matchUnitDollar
-  rw [List.find?_isSome]
-  refine ⟨u, by cases u <;> simp [Unit.all], ?_⟩
-  rw [dropPrefix?_append]
-  cases nl <;> simp [atDollar]
-
 /-- **C18 (grammar, completeness).** every string of the language is accepted -/
 theorem size_accepts_language (s : Str) (h : SizeLang s) : ∃ z, Size.fromString s = .ok z := by
   cases h with
@@ -120,34 +105,40 @@ theorem size_accepts_language (s : Str) (h : SizeLang s) : ∃ z, Size.fromStrin
     · exact ⟨⟨0, .px⟩, by decide⟩
     · exact ⟨⟨0, .px⟩, by decide⟩
   | num ip fp u nl hip hfp =>
-    have hu := matchUnitDollar_complete u nl
-    obtain ⟨u', hu'⟩ := Option.isSome_iff_exists.mp hu
-    have hm : matchNumber (ip ++ (if fp = [] then [] else '.' :: fp) ++ (u.text ++ (if nl then ['\n'] else [])))
-        = some (ip, fp, u.text ++ (if nl then ['\n'] else [])) := by
-      unfold matchNumber
-      rcases hfp with hfp | hfp
-      · subst hfp
-        simp only [if_true, List.append_nil]
-        rw [spanDecimals_append ip _ hip.2 (unit_head_not_decimal u nl)]
-        have : ip.isEmpty = false := by cases ip <;> simp_all [IsDecimals]
-        simp only [this, Bool.false_eq_true, if_false]
-        split
-        · rename_i r' e
-          exact (unit_head_ne_dot u nl r' e).elim
-        · rfl
-      · have hne : fp ≠ [] := hfp.1
-        simp only [hne, if_false, List.append_assoc, List.cons_append]
-        rw [spanDecimals_append ip _ hip.2 (by intro c r e; simp at e; obtain ⟨rfl, _⟩ := e; decide)]
-        have : ip.isEmpty = false := by cases ip <;> simp_all [IsDecimals]
-        simp only [this, Bool.false_eq_true, if_false]
-        rw [spanDecimals_append fp _ hfp.2 (unit_head_not_decimal u nl)]
-        have : fp.isEmpty = false := by cases fp <;> simp_all
-        simp [this]
+    have hu' := matchUnitDollar_text u nl
+    have hm := matchNumber_complete ip fp u nl hip hfp
     unfold Size.fromString
     rw [hm]
     simp only
     rw [hu']
     exact ⟨_, rfl⟩
+
+/-- **C18 (print, then parse).** for every non-negative size, parsing what `__str__` printed gives the value rounded to
+    two decimals (half to even, on the exact value) with the same unit — whatever the value: whole numbers print
+    without a fraction, trailing zeros are stripped, and none of the three spellings is misread -/
+theorem size_print_parse (s : Size) (h : 0 ≤ s.value) :
+    Size.fromString s.toStr = .ok ⟨mkRat (roundHalfEven (s.value * 100)) 100, s.unit⟩ :=
+  print_parse s h
+
+/-- **C18 (re-parsing a printed value reproduces it).** a size with at most two decimals — in particular every value
+    that was itself printed — survives print-then-parse exactly -/
+theorem size_print_parse_exact (k : Nat) (u : Geo.Unit) :
+    Size.fromString (Size.toStr ⟨mkRat k 100, u⟩) = .ok ⟨mkRat k 100, u⟩ :=
+  print_parse_exact k u
+
+/-- printing is stable under re-parsing: print (parse (print s)) = print s for every non-negative size -/
+theorem size_print_idempotent (s z : Size) (h : 0 ≤ s.value) (hz : Size.fromString s.toStr = .ok z) :
+    Size.fromString z.toStr = .ok z := by
+  have h1 := print_parse s h
+  rw [hz] at h1
+  have e : z = ⟨mkRat (roundHalfEven (s.value * 100)) 100, s.unit⟩ := by simpa using h1
+  have hn := roundHalfEven_nonneg (s.value * 100) (Rat.mul_nonneg h (by decide))
+  obtain ⟨k, hk⟩ := Int.eq_ofNat_of_zero_le hn
+  rw [e, hk]
+  exact print_parse_exact k s.unit
+
+/-- non-vacuity / concrete instance: 12.345 % prints as "12.34%" (half to even) and reads back as 12.34 % -/
+example : Size.toStr ⟨mkRat 12345 1000, .pct⟩ = "12.34%".toList := by decide +kernel
 
 /-- **C18 (padding shorthand).** one to four sizes expand in TTML order (before, end, after, start) -/
 theorem padding_shorthand (s : Str) (l : List Size) (h : mapM' Size.fromString (splitChar ' ' s) = .ok l) :
